@@ -207,6 +207,20 @@ func vt_C01_scaletwistextrude3d() { // thorough only: minutes of nlsat time, one
 	vfCheckBox3(s, "ScaleTwistExtrude3D")
 }
 
+// The same with rotation and scale made concrete (height 4; twist, z and the scale from small
+// lists, so that the angle z*twist/height, its sine/cosine and the scale factor at z are
+// numbers): the profile box and the x, y of the query point stay symbolic. The queries are
+// polynomial (only the box radius is a square root) and counterexamples replay exactly.
+func vc_C01_scaletwistextrude3d_angles() {
+	vfTimeouts(3000, 20000)
+	a := vfNewLeaf2("a", vfK1)
+	sc := []v2.Vec{{X: 0.5, Y: 1.5}, {X: 2, Y: 0.25}, {X: 3, Y: 3}}[vfCase("scale", 3)]
+	twist := []float64{2 * math.Pi, -2 * math.Pi / 3}[vfCase("twist", 2)]
+	z := []float64{-1, 1, 2}[vfCase("z", 3)]
+	s := ScaleTwistExtrude3D(a, 4, twist, sc)
+	vfCheckBox3P(s, "ScaleTwistExtrude3D", v3.Vec{X: vfBounded("p.x"), Y: vfBounded("p.y"), Z: z}, nil)
+}
+
 // screw: untapered, profile leaf; the box radius is the profile's max y
 func vc_C01_screw3d() {
 	vfTimeouts(3000, 15000)
